@@ -153,6 +153,8 @@ func familyNameFeeding(v ssa.Value) ssa.Value {
 			v = x.X
 		case *ssa.FieldAddr:
 			v = x.X
+		case *ssa.Extract:
+			v = x.Tuple // a lookup that returns (x, ok)
 		case *ssa.Call:
 			sc := x.Call.StaticCallee()
 			if sc == nil {
@@ -171,6 +173,16 @@ func familyNameFeeding(v ssa.Value) ssa.Value {
 		}
 	}
 	return nil
+}
+
+// isValidTimestampFn: the timestamp validity predicate, as a method of the table or — when the
+// unused receiver was dropped — a plain function; the timestamp is its last argument either way.
+func isValidTimestampFn(f *ssa.Function) bool {
+	if f == nil || core.PkgPathOf(f) != core.PkgBttest {
+		return false
+	}
+	n := core.FuncName(f)
+	return n == "(*table).validTimestamp" || n == "validTimestamp"
 }
 
 // R08: validation guards dominate the effect they protect.
@@ -220,7 +232,7 @@ func R08(group string) Rule {
 							if st, ok := rr.(*ssa.Store); ok {
 								if P.InAllContexts(e, []ssa.Value{st.Val}, within, func(at ssa.Instruction, vals []ssa.Value) bool {
 									return vals[0] != nil && factCallTrue(at.Block(), func(call *ssa.Call) bool {
-										return core.FuncIs(call.Call.StaticCallee(), core.PkgBttest, "(*table).validTimestamp") && core.SameValue(call.Call.Args[1], vals[0])
+										return isValidTimestampFn(call.Call.StaticCallee()) && core.SameValue(call.Call.Args[len(call.Call.Args)-1], vals[0])
 									})
 								}) {
 									okTs = true
@@ -241,7 +253,11 @@ func R08(group string) Rule {
 						if st, ok := in.(*ssa.Store); ok {
 							if fa, ok := st.Addr.(*ssa.FieldAddr); ok {
 								if _, fld, _ := core.FieldName(fa); fld == "Cells" {
-									if call, ok := core.Resolve(fa.X).(*ssa.Call); ok && call.Call.StaticCallee() != nil && core.FuncName(call.Call.StaticCallee()) == "getColumn" {
+									src := core.Resolve(fa.X)
+									if ex, isEx := src.(*ssa.Extract); isEx {
+										src = ex.Tuple // getColumn returning (col, ok)
+									}
+									if call, ok := src.(*ssa.Call); ok && call.Call.StaticCallee() != nil && core.FuncName(call.Call.StaticCallee()) == "getColumn" {
 										wb = st
 									}
 								}
@@ -251,7 +267,11 @@ func R08(group string) Rule {
 				}
 			}
 			if wb == nil {
-				c.Unknown("R08", "applyMutations/DeleteFromColumn", fn.Pos(), "cannot find the write-back of the column's cells")
+				if gc := P.Func(core.PkgBttest, "getColumn"); gc == nil || gc.Blocks == nil {
+					c.Infof("R08", "applyMutations/DeleteFromColumn", fn.Pos(), "no getColumn helper on this tree (inlined): the family-known guard of the range deletion is not anchored")
+				} else {
+					c.Unknown("R08", "applyMutations/DeleteFromColumn", fn.Pos(), "cannot find the write-back of the column's cells")
+				}
 			} else {
 				name := familyNameFeeding(wb.Addr)
 				c.Check(famGuard(wb, name), "R08", "applyMutations/DeleteFromColumn/family-known", wb.Pos(),
@@ -283,7 +303,7 @@ func R08(group string) Rule {
 			for i, sc := range searches {
 				okStart := P.InAllContexts(sc, nil, within, func(at ssa.Instruction, _ []ssa.Value) bool {
 					return factCallTrue(at.Block(), func(call *ssa.Call) bool {
-						return core.FuncIs(call.Call.StaticCallee(), core.PkgBttest, "(*table).validTimestamp") && loadsField(call.Call.Args[1], "StartTimestampMicros")
+						return isValidTimestampFn(call.Call.StaticCallee()) && loadsField(call.Call.Args[len(call.Call.Args)-1], "StartTimestampMicros")
 					})
 				})
 				c.Check(okStart, "R08", fmt.Sprintf("applyMutations/DeleteFromColumn/start-valid#%d", i+1), sc.Pos(),
@@ -293,7 +313,7 @@ func R08(group string) Rule {
 				endTest := P.InAllContexts(sc, nil, within, func(at ssa.Instruction, _ []ssa.Value) bool {
 					found := false
 					dominatingIfs(at, func(_ *ssa.If, cond ssa.Value) {
-						if call, ok := cond.(*ssa.Call); ok && core.FuncIs(call.Call.StaticCallee(), core.PkgBttest, "(*table).validTimestamp") && loadsField(call.Call.Args[1], "EndTimestampMicros") {
+						if call, ok := cond.(*ssa.Call); ok && isValidTimestampFn(call.Call.StaticCallee()) && loadsField(call.Call.Args[len(call.Call.Args)-1], "EndTimestampMicros") {
 							found = true
 						}
 					})
@@ -474,7 +494,7 @@ func R08(group string) Rule {
 				// handed over is known to be present — Rows gives an empty/nil bound no meaning and the
 				// engines differ on it
 				emptiness := func(at ssa.Instruction, field string) int {
-					for _, f := range core.FactsAtInstr(at) {
+					for _, f := range core.FactsAtRefined(at.Block()) {
 						// a branch on a predicate helper of the range (isUnboundedStart(), hasEnd(), …)
 						if _, _, fname, pop, pk, isPred := lenPredicate(f.Cond); isPred {
 							if fname != field {
@@ -706,8 +726,8 @@ func R08(group string) Rule {
 					case *ssa.Call:
 						if sc := x.Call.StaticCallee(); sc != nil && sc.Pkg != nil && sc.Pkg.Pkg.Path() == "crypto/md5" && sc.Name() == "Sum" {
 							return P.AllOrigins(x.Call.Args[0], within, func(o ssa.Value) bool {
-								pa, isParam := o.(*ssa.Parameter)
-								return isParam && pa.Parent() == fn
+								_, _, isInput := inputOf(fn, o)
+								return isInput
 							})
 						}
 					case *ssa.Slice:
@@ -820,8 +840,8 @@ func R08(group string) Rule {
 				"a path reaches the storing critical section with a declared MD5 that was not compared")
 
 		case "finishCompose":
-			fn := P.MustFunc(core.PkgGcsemu, "(*GcsEmu).finishCompose")
-			c.Fn("(*GcsEmu).finishCompose")
+			fn := funcOr(P, core.PkgGcsemu, "(*GcsEmu).finishCompose", "(*GcsEmu).handleGcsCompose")
+			c.Fn(core.FuncName(fn))
 			bound := func(at *ssa.BasicBlock) bool {
 				for _, f := range core.FactsAt(at) {
 					l, op, r, ok := cmpNorm(f)
@@ -891,12 +911,44 @@ func R08(group string) Rule {
 				c.Unknown("R08", "gc/lock", fn.Pos(), "gc does not take the table lock")
 				return
 			}
-			// the force parameter
-			var force *ssa.Parameter
-			for _, p := range fn.Params {
-				if isBoolType(p.Type()) {
-					force = p
+			// the force flag: a bool parameter, or a bool field of a parameter struct (`p gcParams`)
+			isForce := func(v ssa.Value) bool {
+				v = core.Resolve(v)
+				if !isBoolType(v.Type()) {
+					return false
 				}
+				if pa, isP := v.(*ssa.Parameter); isP {
+					return pa.Parent() == fn
+				}
+				var base ssa.Value
+				switch x := v.(type) {
+				case *ssa.Field:
+					base = x.X
+				case *ssa.UnOp:
+					if fa, isFa := x.X.(*ssa.FieldAddr); isFa && x.Op == token.MUL {
+						base = fa.X
+					}
+				}
+				for i := 0; i < 4 && base != nil; i++ {
+					base = core.Resolve(base)
+					if pa, isP := base.(*ssa.Parameter); isP {
+						return pa.Parent() == fn
+					}
+					if ld, isLd := base.(*ssa.UnOp); isLd && ld.Op == token.MUL {
+						base = ld.X
+						continue
+					}
+					if a, isA := base.(*ssa.Alloc); isA {
+						// a by-value struct parameter spilled to a local cell
+						sts := core.StoresTo(a)
+						if len(sts) == 1 {
+							base = sts[0].Val
+							continue
+						}
+					}
+					break
+				}
+				return false
 			}
 			var forceIf *ssa.If
 			forceTrueIdx := 0
@@ -907,7 +959,7 @@ func R08(group string) Rule {
 					if u, ok := cond.(*ssa.UnOp); ok && u.Op == token.NOT {
 						cond, idx = u.X, 1
 					}
-					if force != nil && core.Resolve(cond) == ssa.Value(force) {
+					if isForce(cond) {
 						forceIf, forceTrueIdx = ifi, idx
 					}
 				}
@@ -1006,7 +1058,36 @@ func R08(group string) Rule {
 				for _, ci := range core.AllCalls(f) {
 					if ci.Static == fn {
 						n++
-						if !P.AllOrigins(ci.Common.Args[len(ci.Common.Args)-1], lset, func(o ssa.Value) bool { bv, isB := core.ConstBool(o); return isB && !bv }) {
+						last := ci.Common.Args[len(ci.Common.Args)-1]
+						if isBoolType(last.Type()) {
+							if !P.AllOrigins(last, lset, func(o ssa.Value) bool { bv, isB := core.ConstBool(o); return isB && !bv }) {
+								okForce = false
+							}
+						} else if _, isStruct := last.Type().Underlying().(*types.Struct); isStruct {
+							// a parameter struct built at the call: every bool field is left false
+							ld, isLd := last.(*ssa.UnOp)
+							var lit *ssa.Alloc
+							if isLd {
+								lit, _ = ld.X.(*ssa.Alloc)
+							}
+							if lit == nil {
+								okForce = false
+							} else {
+								for _, r := range core.Referrers(lit) {
+									fa, isFa := r.(*ssa.FieldAddr)
+									if !isFa || !isBoolType(fa.Type().(*types.Pointer).Elem()) {
+										continue
+									}
+									for _, rr := range core.Referrers(fa) {
+										if st, isSt := rr.(*ssa.Store); isSt {
+											if bv, isB := core.ConstBool(st.Val); !isB || bv {
+												okForce = false
+											}
+										}
+									}
+								}
+							}
+						} else {
 							okForce = false
 						}
 					}
